@@ -147,7 +147,7 @@ def replay_chunks(kind, N, chunks, sigma=1.0):
         # (a) same geometry
         shape, chs, offs = [], [], []
         for n, ch in zip(N, chunks):
-            if len(ch) == 1 and n < 16:
+            if len(ch) == 1 and 4 < n < 16:  # axes of <= 4 voxels are thin on purpose (thinner than the overlap depth)
                 shape.append(16), chs.append((16,)), offs.append((16 - n) // 2)
             else:
                 shape.append(n), chs.append(tuple(ch)), offs.append(0)
@@ -337,6 +337,23 @@ def replay_template(cex):
                 continue
             if not (np.shape(a) == (1, 3) and np.allclose(a, want) and np.shape(b) == (1, 3) and np.allclose(b, want)):
                 bad.append({"template": list(s), "centre": want[0], "numpy": a, "dask_chunks_(20,20,12)": b})
+    # a smooth particle centred 1.5 / 1 voxels before a chunk border: the next block must not report its shoulder
+    for s_ in (8, 7):
+        zz = np.indices((s_,) * 3).astype(float)
+        c = (s_ - 1) / 2
+        t = (np.exp(-((zz[0] - c) ** 2 + (zz[1] - c) ** 2 + (zz[2] - c) ** 2) / 6.0) + 0.05 * rng.normal(size=(s_,) * 3)).astype(np.float32)
+        for start in (6, 7, 8, 9, 10):
+            big = rng.normal(size=(24, 20, 40)).astype(np.float32) * 0.02
+            big[8:8 + s_, 6:6 + s_, start:start + s_] += t
+            tm = ZNCCTemplateMatcher(t)
+            try:
+                a = np.round(tm.pick_molecules(big, 1.0, min_score=0.6).pos, 3).tolist()
+                b = np.round(tm.pick_molecules(da.from_array(big, chunks=(24, 20, 13)), 1.0, min_score=0.6).pos, 3).tolist()
+            except Exception as e:
+                bad.append({"smooth-template": s_, "raised": repr(e)[:150]})
+                continue
+            if sorted(a) != sorted(b):
+                bad.append({"smooth-template": s_, "x-start": start, "numpy": a, "dask_chunks_(24,20,13)": b})
     # searched rotation: a quarter turn about z of a chiral template (exact on the grid), odd and even
     for n in (7, 8):
         t = rng.normal(size=(n, n, n)).astype(np.float32)
@@ -405,6 +422,9 @@ def sec_template(rec, shape=(4, 2, 6), K=3, patches=None):
             nc = z3.Real("n_c")
             highest_owned = d + nc - (Fraction(3, 2) if s_ % 2 == 0 else 1)
             rec.query(f"{tag}/depth/axis{a}/highest-owned-centre-is-on-the-landscape", [nc >= 1], highest_owned <= (nc + 2 * d - s_ - 2) + Fraction(s_ + 1, 2), key="C20/tm/depth-covers-template", replay=lambda cex: replay_template(cex))
+            # ... and not on its border: the first / last entry of a block's landscape can be the shoulder of a particle lying just outside it
+            rec.query(f"{tag}/depth/axis{a}/owned-centres-are-interior-entries-of-the-landscape", [nc >= 1],
+                      z3.And(z3.RealVal(Fraction(s_ + 1, 2)) + 1 <= lowest_owned, highest_owned <= (nc + 2 * d - s_ - 2) + Fraction(s_ + 1, 2) - 1), key="C20/tm/landscape-border-owned", replay=lambda cex: replay_template(cex))
         if not okn:
             continue
         c = [Fraction(n - 1, 2) for n in shape]
@@ -473,7 +493,7 @@ def sec_tm_chunks(rec, shape=(4, 2, 6), N=(12, 6, 8), chunks=((6, 6), (6,), (8,)
     rec.encodes("acryo/pick/_base.py:BasePickerModel.pick_molecules", "acryo/pick/_base.py:BasePickerModel._pick_in_chunk_wrapped", "acryo/pick/_base.py:BaseTemplateMatcher.get_params_and_depth (depth)",
                 "acryo/pick/_concrete.py:ZNCCTemplateMatcher.pick_molecules")
     rec.assume("real dask map_overlap on an image of position codes; pick_in_chunk idealised: a particle is reported iff its centre is on the landscape of the block: (s+1)/2 <= p <= n - (s+3)/2 on every axis (C04: entry x <-> template at x+1), "
-               "centres are at landscape nodes: p - (s+1)/2 is an integer")
+               "centres are at landscape nodes: p - (s+1)/2 is an integer; a particle one node outside the landscape may leave a maximum on the nearest border entry of the landscape (its shoulder)")
     PB.affine_transform = lambda inp, mtx, **kw: np.asarray(inp)
     PB.spline_filter = lambda inp, **kw: inp
     img = coded_image(N)
@@ -494,6 +514,15 @@ def sec_tm_chunks(rec, shape=(4, 2, 6), N=(12, 6, 8), chunks=((6, 6), (6,), (8,)
         rows = []
         if all(bool(p[a] >= Fraction(shape[a] + 1, 2)) and bool(p[a] <= n[a] - Fraction(shape[a] + 3, 2)) for a in range(3)):
             rows.append(p)
+        else:
+            # the particle is not on this block's landscape: its shoulder may show up as a maximum on the landscape border next to it
+            ex = cur()
+            lo = [Fraction(shape[a] + 1, 2) for a in range(3)]
+            hi = [n[a] - Fraction(shape[a] + 3, 2) for a in range(3)]
+            near = all(bool(p[a] >= lo[a] - 1) and bool(p[a] <= hi[a] + 1) for a in range(3))
+            if near and bool(C.SymBool(z3.Bool(ex.fresh_name("shoulder_blk")))):
+                q = [lo[a] if bool(p[a] < lo[a]) else (hi[a] if bool(p[a] > hi[a]) else p[a]) for a in range(3)]
+                rows.append(q)
         pos = to_symarray(rows) if rows else np.zeros((0, 3), dtype=np.float32)
         quats = np.zeros((len(rows), 4), dtype=np.float32)
         quats[:, 3] = 1.0
@@ -557,8 +586,10 @@ MUTANTS = [
     ("owned-interval-open-on-both-sides", "checks.c20", "sec_chunks", _CH0, {_PB: [("(local >= -0.5)", "(local > -0.5)")]}),
     ("chunk-start-not-added", "checks.c20", "sec_chunks", _CH0, {_PB: [("pos[:, i] = local + (start + _depth[i])", "pos[:, i] = local + _depth[i]")]}),
     ("scale-dropped", "checks.c20", "sec_chunks", _CH0, {_PB: [("mole._pos = (mole._pos - depth) * scale", "mole._pos = mole._pos - depth")]}),
-    ("tm-depth-without-the-cropped-voxel (defect fixed by 'fix: template matching finds particles centred on a chunk border')", "checks.c20", "sec_tm_chunks", {}, {_PB: [(".astype(np.uint16) + 1)", ".astype(np.uint16))")]}),
-    ("tm-depth-without-the-cropped-voxel [depth query]", "checks.c20", "sec_template", {}, {_PB: [(".astype(np.uint16) + 1)", ".astype(np.uint16))")]}),
+    ("tm-depth-without-the-cropped-voxel (defect fixed by 'fix: template matching finds particles centred on a chunk border')", "checks.c20", "sec_tm_chunks", {}, {_PB: [("depth = tuple((np.array(templates[0].shape) // 2 + 2).astype(np.uint16))", "depth = tuple(np.ceil(np.array(templates[0].shape) / 2).astype(np.uint16))")]}),
+    ("tm-depth-without-the-cropped-voxel [depth query]", "checks.c20", "sec_template", {}, {_PB: [("depth = tuple((np.array(templates[0].shape) // 2 + 2).astype(np.uint16))", "depth = tuple(np.ceil(np.array(templates[0].shape) / 2).astype(np.uint16))")]}),
+    ("tm-depth-owned-position-on-the-landscape-border (defect fixed by 'fix: template matching does not report the shoulder...')", "checks.c20", "sec_tm_chunks", {},
+     {_PB: [("depth = tuple((np.array(templates[0].shape) // 2 + 2).astype(np.uint16))", "depth = tuple(np.ceil(np.array(templates[0].shape) / 2).astype(np.uint16) + 1)")]}),
     ("tm-rotation-pivot-floor (seeded change C20_2)", "checks.c20", "sec_template", {}, {_PB: [("_center = np.array(template.shape) / 2 - 0.5", "_center = np.array(template.shape) // 2")]}),
     ("tm-rotators-not-inverted", "checks.c20", "sec_template", {}, {_PB: [("rotators = [Rotation.from_quat(r).inv() for r in self._quaternions]", "rotators = [Rotation.from_quat(r) for r in self._quaternions]")]}),
     ("tm-centre-offset-s/2", "checks.c20", "sec_template", {}, {_PCM: [("offset = (np.array(templates[0].shape) + 1) / 2", "offset = np.array(templates[0].shape) / 2")]}),
